@@ -2,6 +2,572 @@
 
 package controller
 
-import "verif.local/vsim"
+import (
+	"encoding/json"
+	"fmt"
+	"net/http"
+	"net/url"
+	"sort"
+	"strings"
+	"time"
 
-func scenC20(w *vsim.World, spec *vsim.Spec) {}
+	"verif.local/vsim"
+)
+
+// ---- C20: federated list-by-UUID --------------------------------------------------------
+
+type c20obj struct {
+	uuid, name string
+	modified   time.Time
+}
+
+type c20backend struct {
+	cluster  string // "zzzzz" = the local Rails API
+	objs     []*c20obj
+	pageSize int
+	order    int // 0 modified_at desc, 1 uuid asc, 2 shuffled per call
+	short    bool
+	calls    int
+	served   map[string]int // uuid -> number of delivered answers that contained it
+}
+
+type c20kind struct{ path, infix, kind string }
+
+var c20kinds = []c20kind{
+	{"collections", "4zz18", "arvados#collection"},
+	{"container_requests", "xvhdp", "arvados#containerRequest"},
+	{"groups", "j7d0g", "arvados#group"},
+}
+
+// parseListParams extracts the API parameters of a list call from query string and form body.
+func parseListParams(r *vsim.NetRequest) url.Values {
+	v, _ := url.ParseQuery(r.Query)
+	if strings.HasPrefix(r.Header.Get("Content-Type"), "application/x-www-form-urlencoded") {
+		if f, err := url.ParseQuery(string(r.Body)); err == nil {
+			for k, vals := range f {
+				v[k] = append(v[k], vals...)
+			}
+		}
+	}
+	return v
+}
+
+// c20match: does the object satisfy the filters (uuid in/=, name =)? ok=false: unsupported filter.
+func c20match(o *c20obj, filters [][]any) bool {
+	for _, f := range filters {
+		if len(f) != 3 {
+			return false
+		}
+		attr, _ := f[0].(string)
+		op, _ := f[1].(string)
+		val := o.uuid
+		if attr == "name" {
+			val = o.name
+		} else if attr != "uuid" {
+			return false
+		}
+		switch op {
+		case "=":
+			if s, _ := f[2].(string); s != val {
+				return false
+			}
+		case "!=":
+			if s, _ := f[2].(string); s == val {
+				return false
+			}
+		case "in":
+			l, _ := f[2].([]any)
+			hit := false
+			for _, x := range l {
+				if s, _ := x.(string); s == val {
+					hit = true
+				}
+			}
+			if !hit {
+				return false
+			}
+		default:
+			return false
+		}
+	}
+	return true
+}
+
+func scenC20(w *vsim.World, spec *vsim.Spec) {
+	rnd := w.NewRand("gen")
+	nRemotes := w.Range("remotes", 1, 3)
+	maxItems := []int{1000, 1000, 1000, 1000, 3, 5, 8, 12}[w.Choose("max-items-per-response", 8)]
+	cfg := fedConfig{
+		remotes:  allRemoteIDs[:nRemotes],
+		legacy:   false,
+		wildcard: w.Chance("wildcard-remote", 300),
+		maxItems: maxItems,
+		maxAmp:   0,
+		timeout:  300 * time.Second,
+	}
+	kind := c20kinds[w.Choose("kind", len(c20kinds))]
+	clusters := append([]string{homeID}, cfg.remotes...)
+	const unknownCluster = "zqqqq"
+
+	// ---- objects and backends -----------------------------------------------------------
+	backends := map[string]*c20backend{}
+	exists := map[string]*c20obj{}
+	var allUUIDs []string
+	base := time.Date(1999, 6, 1, 0, 0, 0, 0, time.UTC)
+	for _, c := range clusters {
+		be := &c20backend{cluster: c, served: map[string]int{}}
+		n := w.Choose("objects "+c, 8)
+		for i := 0; i < n; i++ {
+			o := &c20obj{uuid: c + "-" + kind.infix + "-" + randAlnum(rnd, 15)}
+			o.name = "name-of-" + o.uuid
+			o.modified = base.Add(time.Duration(rnd.Intn(1000000)) * time.Second)
+			be.objs = append(be.objs, o)
+			exists[o.uuid] = o
+			allUUIDs = append(allUUIDs, o.uuid)
+		}
+		be.pageSize = 1 + w.Choose("page-size "+c, max(n, 1))
+		be.order = w.Choose("page-order "+c, 3)
+		be.short = w.Chance("short-pages "+c, 300)
+		backends[c] = be
+	}
+
+	// ---- the request ---------------------------------------------------------------------
+	unknownOK := w.Chance("unknown-prefixes", 200)
+	malformedOK := w.Chance("malformed-uuids", 300)
+	pick := func() string {
+		c := w.Choose("uuid-class", 8)
+		if (c == 5 && !unknownOK) || (c == 6 && !malformedOK) {
+			c = 0
+		}
+		switch {
+		case c <= 3 && len(allUUIDs) > 0:
+			return allUUIDs[w.Choose("existing", len(allUUIDs))]
+		case c <= 4:
+			return clusters[w.Choose("missing-cluster", len(clusters))] + "-" + kind.infix + "-" + randAlnum(rnd, 15)
+		case c == 5:
+			return unknownCluster + "-" + kind.infix + "-" + randAlnum(rnd, 15)
+		case c == 6:
+			return []string{"", "zzzzz-" + kind.infix + "-short", "not-a-uuid", clusters[len(clusters)-1] + "-" + kind.infix + "-" + randAlnum(rnd, 16), randAlnum(rnd, 26)}[w.Choose("malformed", 5)]
+		default:
+			if len(allUUIDs) > 0 {
+				return allUUIDs[w.Choose("existing", len(allUUIDs))]
+			}
+			return homeID + "-" + kind.infix + "-" + randAlnum(rnd, 15)
+		}
+	}
+	var filters [][]any
+	var filterSets []map[string]bool
+	listed := 0
+	nFilters := []int{1, 1, 1, 2, 3}[w.Choose("uuid-filters", 5)]
+	var firstList []string
+	for i := 0; i < nFilters; i++ {
+		set := map[string]bool{}
+		if i > 0 && w.Chance("filter-is-equals", 300) {
+			u := pick()
+			if len(firstList) > 0 && w.Chance("equals-from-first", 700) {
+				u = firstList[w.Choose("which", len(firstList))]
+			}
+			filters = append(filters, []any{"uuid", "=", u})
+			set[u] = true
+			listed++
+		} else {
+			var l []string
+			if i > 0 && len(firstList) > 0 {
+				// later filters mostly overlap the first one, so that the intersection matters
+				for _, u := range firstList {
+					if !w.Chance("drop-from-later-filter", 150) {
+						l = append(l, u)
+					}
+				}
+			}
+			n := 1 + w.Choose("list-length", 10)
+			if i > 0 {
+				n = w.Choose("extra-in-later-filter", 3)
+			}
+			for k := 0; k < n; k++ {
+				l = append(l, pick())
+			}
+			if len(l) > 0 && w.Chance("duplicate-uuid", 250) {
+				l = append(l, l[w.Choose("dup-of", len(l))])
+			}
+			if i == 0 {
+				firstList = l
+			}
+			anyl := make([]any, len(l))
+			for k, u := range l {
+				anyl[k] = u
+				set[u] = true
+			}
+			filters = append(filters, []any{"uuid", "in", anyl})
+			listed += len(l)
+		}
+		filterSets = append(filterSets, set)
+	}
+	// U: the UUIDs that satisfy every uuid filter and can name an object at all
+	U := map[string]bool{}
+	for u := range filterSets[0] {
+		ok := len(u) == 27
+		for _, s := range filterSets[1:] {
+			ok = ok && s[u]
+		}
+		if ok {
+			U[u] = true
+		}
+	}
+	involved := map[string]bool{}
+	for u := range U {
+		involved[u[:5]] = true
+	}
+	spansRemote, unknownInvolved := false, false
+	for c := range involved {
+		if c != homeID {
+			spansRemote = true
+		}
+		if backends[c] == nil {
+			unknownInvolved = true
+		}
+	}
+	var expect []string
+	for _, u := range sortedStrings(U) {
+		if exists[u] != nil {
+			expect = append(expect, u)
+		}
+	}
+
+	// unsplittable variants
+	params := url.Values{}
+	mustReject, mayReject := "", ""
+	count := []string{"none", "none", "none", "none", "none", "none", "exact", ""}[w.Choose("count", 8)]
+	if count != "" {
+		params.Set("count", count)
+	}
+	if count == "exact" {
+		mustReject = "count"
+	} else if count == "" {
+		mayReject = "count-unspecified"
+	}
+	switch w.Choose("unsplittable", 20) {
+	case 1:
+		filters = append(filters, []any{"name", "=", "name-of-" + pick()})
+		mustReject = "other-filter"
+	case 2:
+		filters = append(filters, []any{"uuid", "!=", pick()})
+		mustReject = "other-operator"
+	case 3:
+		params.Set("limit", fmt.Sprint(1+w.Choose("limit", 50)))
+		mustReject = "limit"
+	case 4:
+		params.Set("offset", fmt.Sprint(1+w.Choose("offset", 5)))
+		mustReject = "offset"
+	case 5:
+		params.Set("order", []string{"uuid", "modified_at desc", `["name asc"]`}[w.Choose("order", 3)])
+		mustReject = "order"
+	}
+	if len(U) > maxItems {
+		mustReject = "more-uuids-than-page-limit"
+	} else if listed > maxItems && mustReject == "" {
+		mayReject = "listed-uuids-exceed-page-limit-only-with-duplicates-or-non-matching"
+	}
+	selectMode := w.Choose("select", 4)
+	switch selectMode {
+	case 1:
+		params.Set("select", `["uuid","name"]`)
+	case 2:
+		params.Set("select", `["name"]`)
+	case 3:
+		params.Set("select", `["name","uuid","modified_at"]`)
+	}
+	fj, _ := json.Marshal(filters)
+	params.Set("filters", string(fj))
+	cr := &clientReq{Method: "GET", Path: "/arvados/v1/" + kind.path, Header: http.Header{"Authorization": {"Bearer v2/" + homeID + "-gj3su-" + randAlnum(rnd, 15) + "/" + randAlnum(rnd, 50)}}}
+	if w.Chance("post-as-get", 300) {
+		cr.Method = "POST"
+		params.Set("_method", "GET")
+		cr.ContentType = "application/x-www-form-urlencoded"
+		cr.Body = params.Encode()
+	} else {
+		cr.Query = params.Encode()
+	}
+
+	// ---- fault plan: the k-th backend call of the run -------------------------------------
+	faultAt := w.Choose("fault-at-call", 7) // 0 = none
+	faultKind := []string{"error-5xx", "connection-error", "no-progress", "no-progress-forever", "error-4xx"}[w.Choose("fault-kind", 5)]
+	totalCalls := 0
+	faultFired := ""
+	stickyOn := ""
+
+	handler := func(r *vsim.NetRequest) *vsim.NetReply {
+		cl := clusterOfHost(r.Host)
+		if cl == "" {
+			cl = homeID
+		}
+		be := backends[cl]
+		rep := &vsim.NetReply{Latency: time.Duration(1+w.Choose("lat-ms", 200)) * time.Millisecond}
+		if be == nil || r.Path != "/arvados/v1/"+kind.path {
+			w.Logf("wire #%d %s %s%s (unexpected)", r.Seq, r.Method, r.Host, r.Path)
+			e := errReply(404, "Path not found")
+			e.Latency = rep.Latency
+			return e
+		}
+		p := parseListParams(r)
+		var fl [][]any
+		json.Unmarshal([]byte(p.Get("filters")), &fl)
+		var asked []string
+		for _, f := range fl {
+			if len(f) == 3 {
+				if l, ok := f[2].([]any); ok {
+					for _, x := range l {
+						if s, ok := x.(string); ok {
+							asked = append(asked, s)
+						}
+					}
+				} else if s, ok := f[2].(string); ok {
+					asked = append(asked, s)
+				}
+			}
+		}
+		sort.Strings(asked)
+		be.calls++
+		totalCalls++
+		w.Logf("wire #%d list call %d at %s (call %d of the run): %d uuids asked, count=%q limit=%q select=%q", r.Seq, be.calls, cl, totalCalls, len(asked), p.Get("count"), p.Get("limit"), p.Get("select"))
+		var sel []string
+		if s := p.Get("select"); s != "" {
+			json.Unmarshal([]byte(s), &sel)
+		}
+		item := func(o *c20obj) map[string]any {
+			full := map[string]any{"kind": kind.kind, "uuid": o.uuid, "name": o.name, "modified_at": o.modified.Format("2006-01-02T15:04:05.000000000Z"), "owner_uuid": cl + "-tpzed-000000000000000"}
+			if len(sel) == 0 {
+				return full
+			}
+			m := map[string]any{"kind": kind.kind}
+			for _, k := range sel {
+				if v, ok := full[k]; ok {
+					m[k] = v
+				}
+			}
+			return m
+		}
+		reply := func(items []map[string]any) *vsim.NetReply {
+			if items == nil {
+				items = []map[string]any{}
+			}
+			j := jsonReply(200, map[string]any{"kind": kind.kind + "List", "items": items, "offset": 0, "limit": be.pageSize})
+			j.Latency = rep.Latency
+			return j
+		}
+		fault := ""
+		if totalCalls == faultAt {
+			fault = faultKind
+		} else if stickyOn == cl {
+			fault = "no-progress-forever"
+		}
+		switch fault {
+		case "error-5xx", "error-4xx":
+			faultFired = fault + "@" + cl
+			w.Fault("backend-" + fault)
+			e := errReply(map[string]int{"error-5xx": 503, "error-4xx": 422}[fault], "simulated backend failure")
+			e.Latency = rep.Latency
+			return e
+		case "connection-error":
+			faultFired = fault + "@" + cl
+			w.Fault("backend-connection-error")
+			rep.Err = vsim.ErrConnReset
+			return rep
+		case "no-progress", "no-progress-forever":
+			// a non-empty page none of whose items was asked for
+			faultFired = fault + "@" + cl
+			if fault == "no-progress-forever" {
+				stickyOn = cl
+			}
+			w.Fault("backend-" + fault)
+			var items []map[string]any
+			isAsked := map[string]bool{}
+			for _, a := range asked {
+				isAsked[a] = true
+			}
+			for _, o := range be.objs {
+				if !isAsked[o.uuid] && len(items) < 2 {
+					items = append(items, item(o))
+				}
+			}
+			if len(items) == 0 {
+				o := &c20obj{uuid: cl + "-" + kind.infix + "-" + strings.Repeat("9", 15), name: "unrelated", modified: base}
+				items = append(items, item(o))
+			}
+			return reply(items)
+		}
+		// honest answer: one page of the matching objects
+		var match []*c20obj
+		for _, o := range be.objs {
+			if c20match(o, fl) {
+				match = append(match, o)
+			}
+		}
+		switch be.order {
+		case 0:
+			sort.Slice(match, func(i, j int) bool { return match[j].modified.Before(match[i].modified) })
+		case 1:
+			sort.Slice(match, func(i, j int) bool { return match[i].uuid < match[j].uuid })
+		default:
+			for i := len(match) - 1; i > 0; i-- {
+				j := w.Choose("shuffle", i+1)
+				match[i], match[j] = match[j], match[i]
+			}
+		}
+		n := be.pageSize
+		if lim := p.Get("limit"); lim != "" {
+			var l int
+			if _, err := fmt.Sscan(lim, &l); err == nil && l >= 0 && l < n {
+				n = l
+			}
+		}
+		if n > len(match) {
+			n = len(match)
+		}
+		if be.short && n > 1 {
+			n = 1 + w.Choose("short-page", n)
+			w.Probe("short-page")
+		}
+		if n < len(match) {
+			w.Probe("backend-paged")
+		}
+		var items []map[string]any
+		var uu []string
+		for _, o := range match[:n] {
+			items = append(items, item(o))
+			uu = append(uu, o.uuid)
+		}
+		out := reply(items)
+		r.Header.Set("X-Verif-Items", strings.Join(uu, ","))
+		return out
+	}
+	sys := newFedSys(w, cfg, handler)
+	defer sys.close()
+	sys.net.onDeliver = func(r *vsim.NetRequest, rep *vsim.NetReply) {
+		cl := clusterOfHost(r.Host)
+		if cl == "" {
+			cl = homeID
+		}
+		if be := backends[cl]; be != nil && rep.Status == 200 {
+			for _, u := range strings.Split(r.Header.Get("X-Verif-Items"), ",") {
+				if u != "" {
+					be.served[u]++
+				}
+			}
+		}
+	}
+
+	w.Logf("request kind=%s filters=%s count=%q mustReject=%q mayReject=%q spansRemote=%v unknown=%v |U|=%d listed=%d maxItems=%d expect=%d fault=%d/%s",
+		kind.path, fj, count, mustReject, mayReject, spansRemote, unknownInvolved, len(U), listed, maxItems, len(expect), faultAt, faultKind)
+	var code int
+	var body []byte
+	finished := false
+	callsAtReturn := 0
+	w.Spawn("client", func() {
+		rec := sys.serve(cr)
+		code, body = rec.Code, rec.Body.Bytes()
+		finished = true
+		callsAtReturn = totalCalls
+		w.Logf("response %d", code)
+	})
+	w.Run(nil)
+	if w.Failed() {
+		return
+	}
+	if !finished {
+		if w.Truncated() {
+			w.Violation("c20/livelock", "the list request had not returned after %d scheduler steps and %d backend calls (fault %s)", w.Steps(), totalCalls, faultFired)
+		} else {
+			w.Violation("c20/request-never-returned", "%s", strings.Join(w.Blocked(), "; "))
+		}
+		return
+	}
+	if w.Truncated() {
+		return
+	}
+	_ = callsAtReturn
+	var got []string
+	gotOK := false
+	if code == 200 {
+		var resp struct {
+			Items []map[string]any `json:"items"`
+		}
+		if err := json.Unmarshal(body, &resp); err != nil {
+			w.Violation("c20/unparsable-200", "%v", err)
+			return
+		}
+		gotOK = true
+		for _, it := range resp.Items {
+			u, _ := it["uuid"].(string)
+			if u == "" {
+				n, _ := it["name"].(string)
+				u = strings.TrimPrefix(n, "name-of-")
+			}
+			got = append(got, u)
+		}
+		sort.Strings(got)
+	} else if code < 400 {
+		w.Violation("c20/odd-status", "status %d", code)
+		return
+	}
+	errText := strings.TrimSpace(string(body))
+	if len(errText) > 300 {
+		errText = errText[:300]
+	}
+	switch {
+	case !spansRemote:
+		// A query that names no remote object is a plain local list call: the property says
+		// nothing about it beyond "no other cluster is involved".
+		w.Probe("local-only-query")
+		for _, c := range cfg.remotes {
+			if backends[c].calls > 0 {
+				w.Violation("c20/remote-called-for-local-query", "cluster %s was asked although no requested UUID has its prefix", c)
+				return
+			}
+		}
+	case mustReject != "":
+		w.Probe("unsplittable-" + mustReject)
+		if gotOK {
+			w.ViolationSig("c20/unsplittable-query-answered", mustReject, "query spanning clusters %v with %s was answered 200 with %d items", sortedStrings(involved), mustReject, len(got))
+			return
+		}
+		if totalCalls > 0 {
+			w.ViolationSig("c20/unsplittable-query-reached-a-backend", mustReject, "query with %s was rejected (%d) only after %d backend call(s)", mustReject, code, totalCalls)
+			return
+		}
+	case !gotOK && mayReject != "" && totalCalls == 0:
+		w.Probe("rejected-" + mayReject)
+	case unknownInvolved || faultFired != "":
+		why := faultFired
+		if unknownInvolved {
+			why = "unknown-cluster"
+			w.Probe("unknown-cluster-involved")
+		} else {
+			w.Probe("fault-hit-request")
+		}
+		if gotOK {
+			w.ViolationSig("c20/list-returned-despite-failing-cluster", strings.Split(why, "@")[0], "an involved cluster failed (%s) but the request returned 200 with %d of %d expected items: %v", why, len(got), len(expect), got)
+			return
+		}
+	default:
+		if !gotOK {
+			w.Violation("c20/healthy-query-failed", "all involved clusters %v answered honestly, yet the request failed: %d %s", sortedStrings(involved), code, errText)
+			return
+		}
+		w.Probe("list-ok")
+		if len(involved) > 2 {
+			w.Probe("list-ok-3plus-clusters")
+		}
+		if strings.Join(got, ",") != strings.Join(expect, ",") {
+			w.Violation("c20/wrong-result-set", "expected each of %v exactly once, got %v", expect, got)
+			return
+		}
+		for _, u := range got {
+			if backends[u[:5]].served[u] == 0 {
+				w.Violation("c20/item-not-from-home-cluster", "%s was returned but no delivered answer of cluster %s contained it", u, u[:5])
+				return
+			}
+		}
+	}
+	w.SetEndState(fmt.Sprintf("%s|%d|%d|%s|%s|%v|%s", kind.path, code, len(got), mustReject, mayReject, unknownInvolved, faultFired))
+}
